@@ -74,6 +74,12 @@ OWN = [
     ("while", {"m": "<% n = 2 %>\n% while n:\n${n}<% n -= 1 %>\n% endwhile\n"}, {}, None),
     ("crlf", {"m": "a\r\n% if x:\r\nb\r\n% endif\r\nc" + E}, {"x": "1"}, None),
     ("unicode-expr", {"m": "${'" + E + "' + x}<% y = '" + E + "' %>${y}"}, {"x": E}, E + E + E),
+    # a def marks its own output as \u00abname:...\u00bb: what get_def(name).render() gives must be the segment the def wrote in the page
+    ("getdef-plain", {"m": "<%! NAME = 'leaf' %><%def name='card()'>\u00abcard:${local.module.NAME}|${self.module.NAME}|${x}\u00bb</%def><%def name='buf()' buffered='True'>\u00abbuf:${x}\u00bb</%def>p${card()}q${buf()}"}, {"x": "1"}, None),
+    ("getdef-inherit", {"base.html": "<%! NAME = 'base' %>B[${self.body()}]<%def name='who()'>base</%def>", "mid.html": "<%! NAME = 'mid' %><%inherit file='base.html'/><%def name='who()'>mid</%def>M(${next.body()})",
+                        "m": "<%! NAME = 'leaf' %><%inherit file='mid.html'/><%def name='who()'>leaf</%def><%def name='card()'>\u00abcard:${local.module.NAME}|${self.module.NAME}|${parent.module.NAME}|${parent.who()}|${local.who()}|${self.who()}|${'next' in context.keys()}|${x}\u00bb</%def><%def name='tag()' filter='trim'>\u00abtag:${local.module.NAME}${x}\u00bb</%def>leaf${card()}${tag()}"}, {"x": "1"}, None),
+    ("getdef-inherit2", {"base.html": "<%! NAME = 'base' %><%def name='who()'>base</%def><%def name='wrap()'>\u00abwrap:${local.module.NAME}|${self.module.NAME}\u00bb</%def>B[${self.body()}]${self.wrap()}",
+                         "m": "<%! NAME = 'leaf' %><%inherit file='base.html'/><%def name='card()' buffered='True'>\u00abcard:${local.module.NAME}|${parent.module.NAME}|${parent.who()}|${x}\u00bb</%def>leaf${card()}"}, {"x": "1"}, None),
     ("cached", {"m": "<%def name='f()' cached='True' cache_impl='c17rec'>c${x}</%def>${f()}${f()}"}, {"x": "1"}, None),
 ]
 
@@ -282,6 +288,15 @@ def judge(it, res, st):
             st.oracles["out-enc"] += 1
             if got != "OUT:same":
                 bad("path:render-bytes:%s" % enc, "render() is render_unicode() encoded once with output_encoding", "render_unicode().encode(%s)" % enc, got)
+    if "get_def" in r0 and base.startswith("OUT:"):
+        # defs that mark their own output: the segment written in the page is what get_def(name).render() gives
+        for n_, got in sorted(r0["get_def"]["defs"].items()):
+            seg = re.findall("\u00ab%s:[^\u00bb]*\u00bb" % re.escape(n_), base)
+            if len(seg) == 1:
+                st.oracles["get_def_in_page"] += 1
+                st.evaluations += 1
+                if got != "OUT:" + seg[0]:
+                    bad("get_def:in-page", "a def rendered through get_def(name).render() gives what it gives in the page", seg[0], got)
     if "get_def" in r0 and "get_def_file" in r0:
         st.oracles["get_def"] += 1
         if r0["get_def"]["defs"] != r0["get_def_file"]["defs"]:
